@@ -1,5 +1,7 @@
 package open_game_manager
 
+import "github.com/weedbox/syncsaga"
+
 func (m *openGameManager) readyGroupResetParticipants() {
 	m.rg.ResetParticipants()
 	m.state.Participants = map[string]*OpenGameParticipant{}
@@ -14,12 +16,35 @@ func (m *openGameManager) readyGroupAddParticipant(participant OpenGameParticipa
 	m.rg.Add(int64(participant.Index), isReady)
 }
 
-func (m *openGameManager) readyGroupOnCompleted() {
+// readyGroupOnCompleted runs on the ready group's own goroutine, possibly while the next set-up is
+// already being made: a completion that belongs to a superseded ready group is dropped.
+func (m *openGameManager) readyGroupOnCompleted(rg *syncsaga.ReadyGroup) {
 	verifHook(m, "completed.enter")
+	m.mu.Lock()
+	if m.rg != rg {
+		m.mu.Unlock()
+		return
+	}
 	for participantID := range m.state.Participants {
 		m.state.Participants[participantID].IsReady = true
 	}
-	m.onOpenGameReady(m.GetState())
+	state := m.copyState()
+	m.mu.Unlock()
+
+	m.onOpenGameReady(state)
+}
+
+func (m *openGameManager) copyState() OpenGameState {
+	state := OpenGameState{
+		Timeout:      m.state.Timeout,
+		GameCount:    m.state.GameCount,
+		Participants: make(map[string]*OpenGameParticipant),
+	}
+	for id, participant := range m.state.Participants {
+		p := *participant
+		state.Participants[id] = &p
+	}
+	return state
 }
 
 func (m *openGameManager) readyGroupReady(participantID string) error {
